@@ -116,14 +116,14 @@ theorem lex_quoted (p : Prep) (b : Backend) (h : WF p) (hiq : b.iq = p.iq) (hfq 
   have hne : n.isEmpty = false := by simpa using hn
   simp [lexIdent, hiq, hfq, hb, hne]
 
-/-- full statement (false, see `lex_quote_counterexample`):
-    `quote p none n = some q → … → lexIdent b (q' ++ rest) = some (n, rest)` for every `n`.
-    The forced hypothesis `hnl` excludes names that end in a newline after a
-    non-empty run of legal characters: `LEGAL_CHARACTERS` ends in `$`, which also
-    matches before a trailing `\n`, so such names are emitted unquoted. -/
+/-- anchor-conditional form: for a preparer whose `legal_characters` is anchored with `$`
+    (`legalNl = true`) the statement needs the hypothesis `hnl` — names that end in a
+    newline after a non-empty run of legal characters are emitted unquoted there
+    (`lex_quote_counterexample`; this was the shipped regex until it was changed to `\Z`).
+    For `\Z`-anchored preparers the hypothesis is vacuous: see `lex_quote` below. -/
 theorem lex_quote_partial (p : Prep) (b : Backend) (hw : WF p) (hc : Compat p b)
     (n q rest : Str) (hn : n ≠ []) (hq : quote p none n = some q)
-    (hnl : requiresQuotes p n = some false → n.getLast? ≠ some 10)
+    (hnl : requiresQuotes p n = some false → p.legalNl = false ∨ n.getLast? ≠ some 10)
     (hr : ∀ c t, rest = c :: t → c ≠ p.fq ∧ b.isCont c = false) :
     ∃ t, serverSees p q = some t ∧
       lexIdent b (t ++ rest) =
@@ -154,7 +154,7 @@ theorem lex_quote_partial (p : Prep) (b : Backend) (hw : WF p) (hc : Compat p b)
 /-- on backends that do not fold to upper case the stored name is `n` itself -/
 theorem lex_quote_partial_exact (p : Prep) (b : Backend) (hw : WF p) (hc : Compat p b)
     (hf : b.fold ≠ 2) (n q rest : Str) (hn : n ≠ []) (hq : quote p none n = some q)
-    (hnl : requiresQuotes p n = some false → n.getLast? ≠ some 10)
+    (hnl : requiresQuotes p n = some false → p.legalNl = false ∨ n.getLast? ≠ some 10)
     (hr : ∀ c t, rest = c :: t → c ≠ p.fq ∧ b.isCont c = false) :
     ∃ t, serverSees p q = some t ∧ lexIdent b (t ++ rest) = some (n, rest) := by
   obtain ⟨t, h1, h2⟩ := lex_quote_partial p b hw hc n q rest hn hq hnl hr
@@ -170,6 +170,26 @@ theorem lex_quote_partial_exact (p : Prep) (b : Backend) (hw : WF p) (hc : Compa
       | none => rw [hrq] at hq; cases hq
       | some bq => cases bq; rfl; exact absurd hrq hne
     rw [foldStr_id p b hc n hfalse hf]
+
+/-- **lex_quote** — full statement: with `legal_characters` anchored by `\Z`, for EVERY
+    non-empty name (newlines anywhere included) the rendered identifier, after the DBAPI's
+    `%`-formatting where the paramstyle has one, is exactly one token of the backend lexer
+    and denotes the name (up to the backend's folding of regular identifiers). -/
+theorem lex_quote (p : Prep) (b : Backend) (hw : WF p) (hc : Compat p b) (hz : p.legalNl = false)
+    (n q rest : Str) (hn : n ≠ []) (hq : quote p none n = some q)
+    (hr : ∀ c t, rest = c :: t → c ≠ p.fq ∧ b.isCont c = false) :
+    ∃ t, serverSees p q = some t ∧
+      lexIdent b (t ++ rest) =
+        some (if requiresQuotes p n = some true then n else b.foldStr n, rest) :=
+  lex_quote_partial p b hw hc n q rest hn hq (fun _ => Or.inl hz) hr
+
+/-- … and on backends that do not fold to upper case it denotes exactly `n` -/
+theorem lex_quote_exact (p : Prep) (b : Backend) (hw : WF p) (hc : Compat p b)
+    (hz : p.legalNl = false) (hf : b.fold ≠ 2) (n q rest : Str) (hn : n ≠ [])
+    (hq : quote p none n = some q)
+    (hr : ∀ c t, rest = c :: t → c ≠ p.fq ∧ b.isCont c = false) :
+    ∃ t, serverSees p q = some t ∧ lexIdent b (t ++ rest) = some (n, rest) :=
+  lex_quote_partial_exact p b hw hc hf n q rest hn hq (fun _ => Or.inl hz) hr
 
 /-! ## every spelling of a backend keyword is quoted -/
 
@@ -257,14 +277,18 @@ theorem reserved_quoted_sqlite (n : Str) (hk : n.map asciiLowerChar ∈ sqliteRe
     requiresQuotes sqlite n = some true :=
   reserved_quoted sqlite sqliteBackend (compat_iff _ _ sqlite_compat) n hk
 
-/-- **lex_quote (SQLite)**: what SQLite's tokenizer reads back is the name -/
-theorem lex_quote_sqlite_partial (n q rest : Str) (hn : n ≠ []) (hq : quote sqlite none n = some q)
-    (hnl : requiresQuotes sqlite n = some false → n.getLast? ≠ some 10)
+/-- every shipped preparer anchors `legal_characters` with `\Z` (regenerated table; this is
+    the obligation that breaks if the `$` anchor comes back) -/
+theorem anchored_Z : ∀ p ∈ allPreps, p.legalNl = false := by decide +kernel
+
+/-- **lex_quote (SQLite)**, full: for every non-empty name, what SQLite's tokenizer reads
+    back from the rendered identifier is the name -/
+theorem lex_quote_sqlite (n q rest : Str) (hn : n ≠ []) (hq : quote sqlite none n = some q)
     (hr : ∀ c t, rest = c :: t → c ≠ 34 ∧ sqliteBackend.isCont c = false) :
     lexIdent sqliteBackend (q ++ rest) = some (n, rest) := by
   have hw := wf_iff sqlite (all_wf sqlite (by simp [allPreps]))
-  obtain ⟨t, h1, h2⟩ := lex_quote_partial_exact sqlite sqliteBackend hw
-    (compat_iff _ _ sqlite_compat) (by decide) n q rest hn hq hnl hr
+  obtain ⟨t, h1, h2⟩ := lex_quote_exact sqlite sqliteBackend hw
+    (compat_iff _ _ sqlite_compat) (anchored_Z sqlite (by simp [allPreps])) (by decide) n q rest hn hq hr
   have : serverSees sqlite q = some q := by
     have : dbl sqlite = false := by decide +kernel
     simp [serverSees, this]
@@ -272,10 +296,10 @@ theorem lex_quote_sqlite_partial (n q rest : Str) (hn : n ≠ []) (hq : quote sq
   cases h1
   exact h2
 
-/-- the hypothesis `hnl` cannot be dropped: `"a\n"` is rendered unquoted and SQLite
-    reads the identifier `a` (replayed on the real code by the harness) -/
+/-- with the former `$` anchor the hypothesis `hnl` of `lex_quote_partial` cannot be
+    dropped: `"a\n"` is rendered unquoted and SQLite reads the identifier `a` -/
 theorem lex_quote_counterexample :
-    quote sqlite none [97, 10] = some [97, 10] ∧
+    quote { sqlite with legalNl := true } none [97, 10] = some [97, 10] ∧
     lexIdent sqliteBackend [97, 10] = some ([97], [10]) := by decide +kernel
 
 /-- `pgGap` (from the translator): PostgreSQL keywords (manual, Appendix C) missing from the
@@ -301,17 +325,17 @@ theorem reserved_quoted_pg_gap : ∀ k ∈ pgGap, k ∈ pgKeywords ∧
     (postgresql.reserved.contains k = false → requiresQuotes postgresql k = some false) := by
   decide +kernel
 
-/-- **lex_quote (PostgreSQL, both paramstyles)** outside the keyword gap -/
+/-- **lex_quote (PostgreSQL, both paramstyles)**, every name; partial only in that the
+    backend keyword list excludes the five `pgGap` words -/
 theorem lex_quote_pg_partial (p : Prep) (hp : p = postgresql ∨ p = pgasyncpg) (n q rest : Str)
     (hn : n ≠ []) (hq : quote p none n = some q)
-    (hnl : requiresQuotes p n = some false → n.getLast? ≠ some 10)
     (hr : ∀ c t, rest = c :: t → c ≠ p.fq ∧ pgBackend.isCont c = false) :
     ∃ t, serverSees p q = some t ∧ lexIdent pgBackend (t ++ rest) = some (n, rest) := by
   rcases hp with hp | hp <;> subst hp
-  · exact lex_quote_partial_exact _ _ (wf_iff _ (all_wf _ (by simp [allPreps])))
-      (compat_iff _ _ pg_compat_partial.1) (by decide) n q rest hn hq hnl hr
-  · exact lex_quote_partial_exact _ _ (wf_iff _ (all_wf _ (by simp [allPreps])))
-      (compat_iff _ _ pg_compat_partial.2) (by decide) n q rest hn hq hnl hr
+  · exact lex_quote_exact _ _ (wf_iff _ (all_wf _ (by simp [allPreps])))
+      (compat_iff _ _ pg_compat_partial.1) (anchored_Z _ (by simp [allPreps])) (by decide) n q rest hn hq hr
+  · exact lex_quote_exact _ _ (wf_iff _ (all_wf _ (by simp [allPreps])))
+      (compat_iff _ _ pg_compat_partial.2) (anchored_Z _ (by simp [allPreps])) (by decide) n q rest hn hq hr
 
 /-- MySQL / MariaDB / MSSQL / Oracle: the regular-identifier alphabet and quoting
     style agree with the backend grammar; their keyword lists are a parameter
